@@ -106,7 +106,7 @@ class C08(Check):
     world = 'chain'
     level = 'fault_enumeration'
     design_ref = 'DESIGN.md 3.4'
-    runs = {'quick': 1500, 'thorough': 40000}
+    runs = {'quick': 3000, 'thorough': 60000}
     shrink_lists = (('ops',), ('config', 'mws'))
     rule = ('generated stacks (0-4 middlewares, app/route level, any phases) x error handler {default, debug, re-raising, '
             'broken render_error, render_error returning another error}; per stack EVERY chain position is made faulty once '
